@@ -175,6 +175,7 @@ pub fn gen_case(rng: &mut Rng, corpus: &[String]) -> Option<Case13> {
 /// the position does belong to the line's bytes), so such cases are skipped.
 pub fn covered_lines(orc: &Oracle, input: &[u8], lines: &[Line]) -> (Vec<bool>, usize, bool) {
     let mut amb: Vec<usize> = vec![];
+    let mut half_terminator = false;
     let mut covered = vec![false; lines.len()];
     let mut nmatches = 0;
     let mut pos = 0usize;
@@ -216,6 +217,18 @@ pub fn covered_lines(orc: &Oracle, input: &[u8], lines: &[Line]) -> (Vec<bool>, 
             }
             pos = e + 1;
         } else {
+            // A match that takes the `\r` of a CRLF terminator without its
+            // `\n` (or starts between the two): whether the `\r` of a
+            // terminator is matchable at all is what "--crlf" leaves open for
+            // a multi-line search - for a pattern that cannot match `\n` the
+            // documented answer is the line-mode one (C02), where it is not.
+            // The whole-input reading is not the specification there.
+            if orc.term == Term::Crlf
+                && ((e < len && input[e - 1] == b'\r' && input[e] == b'\n')
+                    || (s > 0 && input[s - 1] == b'\r' && input[s] == b'\n'))
+            {
+                half_terminator = true;
+            }
             let a = line_of(s).unwrap();
             let b = line_of(e - 1).unwrap();
             for c in covered[a..=b].iter_mut() {
@@ -224,7 +237,7 @@ pub fn covered_lines(orc: &Oracle, input: &[u8], lines: &[Line]) -> (Vec<bool>, 
             pos = e;
         }
     }
-    let ambiguous = amb.iter().any(|&i| !covered[i]);
+    let ambiguous = half_terminator || amb.iter().any(|&i| !covered[i]);
     (covered, nmatches, ambiguous)
 }
 
@@ -275,6 +288,12 @@ pub fn check_case(case: &Case13, legs: &[Leg], rep: &mut Report) {
             return;
         }
     };
+    if orc.word_boundary_context_dependent(&[case.pattern.clone()], &case.flags, &case.input) {
+        // recorded under C01: what a Unicode word boundary sees next to
+        // invalid UTF-8 depends on how much of the input the regex is shown
+        rep.count("skipped_unicode_word_boundary_next_to_invalid_utf8");
+        return;
+    }
     if orc.engine_disagrees(&case.input) {
         // the regex library contradicts itself on this (pattern, input):
         // recorded once, under C01; no verdict here
@@ -285,7 +304,7 @@ pub fn check_case(case: &Case13, legs: &[Leg], rep: &mut Report) {
     let lines = split_lines(&case.input, term);
     let (covered, nmatches, ambiguous) = covered_lines(&orc, &case.input, &lines);
     if ambiguous {
-        rep.count("skipped_empty_match_inside_crlf_terminator");
+        rep.count("skipped_match_boundary_inside_crlf_terminator");
         return;
     }
     let ncov = covered.iter().filter(|&&c| c).count();
